@@ -56,6 +56,18 @@ Lemma double_loss_recovers :
   forallb (fun a => forallb (fun b => both_agree (rounds sym 2 (lose_two a b))) datagrams) datagrams = true.
 Proof. vm_compute. reflexivity. Qed.
 
+(* the server's Finished lost on its first TWO transmissions (instances 5 and 7: the original and the
+   answer to the client's first retransmission) is repaired by the third: the Connected server keeps its
+   last flight and answers every retransmitted client Finished *)
+Definition round_losing (cs ss : list nat) (x : sched tm) : sched tm :=
+  flush sym 64 (mem cs) (mem ss)
+        (mkSched (hstep sym (hstep sym (sp x) (HTick Client)) (HTick Server)) (dc x) (ds x)).
+
+Lemma server_finished_lost_twice_recovers :
+  pair_codes (round_losing [] [5; 7]%nat (lose_sets [] [5; 7]%nat)) = (1, 2) /\
+  both_agree (round sym (round_losing [] [5; 7]%nat (lose_sets [] [5; 7]%nat))) = true.
+Proof. split; vm_compute; reflexivity. Qed.
+
 (* F19 witness kept as a regression: before 1decd50 this pair stayed (Handshaking, Connected) for all 30
    rounds up to the deadline; now one round repairs it *)
 Lemma lost_server_finished_recovers :
